@@ -591,8 +591,25 @@ func init() {
 		return th.m.sprintf(th, Str{C: strings.TrimSpace(f)}, sl)
 	}
 	I["fmt.Errorf"] = func(th *Thread, fn *ssa.Function, args []Value) Value {
-		s := th.m.sprintf(th, args[0].(Str), args[1].(Slice))
-		return th.m.newError(s.(Str))
+		m := th.m
+		f := args[0].(Str)
+		// %w: the result wraps its operand (*fmt.wrapError{msg, err}) so that errors.Is/As/Unwrap see it
+		if f.IsConcrete() && strings.Count(f.C, "%w") == 1 {
+			var wrapped Value
+			for _, a := range args[1].(Slice) {
+				if itf, ok := a.(Iface); ok && itf.T != nil && m.implementsError(itf.T) {
+					wrapped = itf
+				}
+			}
+			if fp := m.prog.ImportedPackage("fmt"); wrapped != nil && fp != nil && fp.Type("wrapError") != nil {
+				wt := fp.Type("wrapError").Type()
+				c := new(Value)
+				*c = Struct{Str{C: "wrapped: " + f.C}, wrapped}
+				return Iface{T: types.NewPointer(wt), V: c}
+			}
+		}
+		s := m.sprintf(th, Str{C: strings.ReplaceAll(f.C, "%w", "%v")}, args[1].(Slice))
+		return m.newError(s.(Str))
 	}
 	I["fmt.Println"] = func(th *Thread, fn *ssa.Function, args []Value) Value {
 		return Tuple{th.m.ts.Const(64, 0), Iface{}}
